@@ -4,7 +4,7 @@
    run, not proved). *)
 From Coq Require Import String.
 From Coq Require Import Arith NArith List Bool Lia.
-From DI Require Import Result PyStr Unsign UnsignFacts.
+From DI Require Import Result PyStr Unsign UnsignFacts UnsignSkip.
 Import ListNotations.
 Open Scope N_scope.
 
@@ -55,4 +55,41 @@ Example C16_whole_message :
   remove_signature (lit "-----BEGIN PGP SIGNED MESSAGE-----" ++ [10] ++ lit "Hash: SHA512" ++ [10; 10] ++
                     lit "Format: 3.0 (quilt)" ++ [10] ++ lit "- -----dash escaped" ++ [10] ++ concat sig_example)
   = lit "Format: 3.0 (quilt)" ++ [10] ++ lit "- -----dash escaped".
+Proof. vm_compute. reflexivity. Qed.
+
+(* what stands before the message - lines that do not start with five dashes, blank lines among
+   them - is skipped by the search: the well-formed message theorems hold after any such lines *)
+Theorem C16_leading_lines_skipped : forall pre ls,
+  Forall no_dashes pre -> pgp_search_lines (pre ++ ls) = pgp_search_lines ls.
+Proof. exact search_skips_lines. Qed.
+Print Assumptions C16_leading_lines_skipped.
+
+Theorem C16_wellformed_after_leading_lines : forall pre0 l0 h e pre l sig,
+  Forall no_dashes pre0 ->
+  is_begin_signed l0 = true -> is_hash_line h = true -> is_eol e = true ->
+  sig <> [] -> armor_match sig = true -> no_inner_block sig -> ends_lf l = true ->
+  pgp_search_lines (pre0 ++ l0 :: h :: e :: pre ++ l :: sig) = Some (Some (concat pre ++ chop_lf l)).
+Proof. exact wellformed_with_hash_after. Qed.
+Print Assumptions C16_wellformed_after_leading_lines.
+
+(* white space around a text, of any amount, does not change whether it is an envelope *)
+Theorem C16_is_signed_ignores_padding : forall ws t ws',
+  all_space ws = true -> all_space ws' = true -> is_signed (ws ++ t ++ ws') = is_signed t.
+Proof. exact is_signed_padded. Qed.
+Print Assumptions C16_is_signed_ignores_padding.
+
+(* any number of blank lines (white space, then LF) before a message that reads: the same signed text *)
+Theorem C16_blank_lines_before_message : forall ws t c,
+  Forall (fun l => forall x, In x l -> is_space x = true /\ x <> 10) ws ->
+  is_signed t = true -> pgp_search t = Some (Some c) ->
+  remove_signature (concat (map (fun l => l ++ [10]) ws) ++ t) = c
+  /\ is_signed (concat (map (fun l => l ++ [10]) ws) ++ t) = true.
+Proof. exact remove_signature_after_blank_lines. Qed.
+Print Assumptions C16_blank_lines_before_message.
+
+Example C16_padded_message :
+  remove_signature ([10; 32; 9; 10; 10] ++
+                    lit "-----BEGIN PGP SIGNED MESSAGE-----" ++ [10] ++ lit "Hash: SHA512" ++ [10; 10] ++
+                    lit "Format: 3.0 (quilt)" ++ [10] ++ concat sig_example ++ [10; 32; 10])
+  = lit "Format: 3.0 (quilt)".
 Proof. vm_compute. reflexivity. Qed.
